@@ -55,6 +55,8 @@ fn run_case(cid: usize, n: usize, edges: &[(usize, usize, Option<i64>)]) -> J {
         out.insert("bellman".into(), json!(g.ids.iter().map(|s| dm(&g, &bellman_ford(st, *s, w).distances)).collect::<Vec<_>>()));
         let fw = floyd_warshall(st, w);
         out.insert("floyd".into(), json!(g.ids.iter().map(|s| g.ids.iter().map(|t| fw.distance(*s, *t).map(|x| if x.is_finite() { x as i64 } else { -1 }).unwrap_or(-1)).collect::<Vec<_>>()).collect::<Vec<_>>()));
+        out.insert("floyd_paths".into(), json!(g.ids.iter().map(|s| g.ids.iter().map(|t| path(&g, fw.path(*s, *t))).collect::<Vec<_>>()).collect::<Vec<_>>()));
+        out.insert("bellman_paths".into(), json!(g.ids.iter().map(|s| { let r = bellman_ford(st, *s, w); g.ids.iter().map(|t| path(&g, r.path_to(*t))).collect::<Vec<_>>() }).collect::<Vec<_>>()));
         let wcc = connected_components(st);
         out.insert("wcc".into(), json!(g.ids.iter().map(|id| wcc.get(id).copied().unwrap_or(9999)).collect::<Vec<_>>()));
         let scc = strongly_connected_components(st);
